@@ -12,7 +12,11 @@ Inductive case :=
    netip.ParsePrefix for the strings in it that parse; what the recorder saw (class 0 loaded / 1 error / 2 panic, and
    the AddRule calls); what a real Firewall with configuration cf did with the same text, and Drop probes on it *)
 | CConf (inbound : bool) (tbl : option yaml) (ppt : list (str * prefix)) (rec_class : N) (rec_rules : list rule)
-        (cf : fwconf) (fw_class : N) (pl : pool) (probes : list probe).
+        (cf : fwconf) (fw_class : N) (pl : pool) (probes : list probe)
+(* a whole firewall built by the real NewFirewallFromConfig: firewall.default_local_cidr_any (None = key absent), the
+   inbound and outbound tables, the node's own certificate networks / unsafe networks; class 0 built / 1 error / 2 panic *)
+| CFull (dflag : option bool) (in_tbl out_tbl : option yaml) (ppt : list (str * prefix)) (nets unsafe : list prefix)
+        (fw_class : N) (probes : list probe).
 
 Definition zz_eqb (a b : Z * Z) : bool := (fst a =? fst b)%Z && (snd a =? snd b)%Z.
 
@@ -78,5 +82,26 @@ Definition check_case (c : case) : list N :=
                     end
              else []
          | _ => []
+         end
+  | CFull dflag in_tbl out_tbl ppt nets unsafe fw_class probes =>
+      let pp := fun s => aget str_eqb s ppt in
+      (* the documented configuration: the flag, default false, applies to every rule of BOTH tables *)
+      let cf := mkConf nets unsafe (match dflag with Some b => b | None => false end) in
+      flag 2 (negb (fw_class =? 2))
+      ++ match rules_from_config pp out_tbl, rules_from_config pp in_tbl with
+         | ROk ro, ROk ri =>
+             let ok := forallb rule_valid ri && forallb rule_valid ro in
+             flag 1 (Bool.eqb ok (fw_class =? 0)) ++ flag 2 (Bool.eqb ok (fw_class =? 0))
+             ++ (if ok && (fw_class =? 0) then
+                   let rules := map (fun r => (true, r, true)) ri ++ map (fun r => (false, r, true)) ro in
+                   (* code 1 inside run_probes: the model's tables (or, for wide ranges, the equivalent rule-list matcher);
+                      code 2: rule_matches evaluated on (config, certificate, packet) against the implementation's verdict *)
+                   if existsb wide (ri ++ ro) then run_probes true cf rules (rules_matcher cf ri ro) [] [] probes
+                   else match new_firewall cf ri ro with
+                        | None => [1]
+                        | Some fw => run_probes true cf rules (table_matcher fw) [] [] probes
+                        end
+                 else [])
+         | _, _ => flag 1 (negb (fw_class =? 0)) ++ flag 2 (negb (fw_class =? 0))
          end
   end.
